@@ -40,7 +40,7 @@ def budget(tier):
 
 def essential_labels(tier):
     return ["fam:hybrid", "fam:json", "has_default", "has_default_factory", "has_rename", "renamed_field_with_default", "value_equals_nonzero_default",
-            "field:hybrid", "field:ref", "array_2d", "field_absent", "json_text"]
+            "field:hybrid", "field:ref", "array_2d", "field_absent", "json_text", "derived_class"]
 
 
 @st.composite
@@ -49,7 +49,7 @@ def cases(draw, tier):
         cfg = hybgen.HCfg(tier)
         h = draw(hybgen.hspecs(cfg))
         value = hybgen.hvalues(draw, h)
-        return {"fam": "hybrid", "h": h, "value": value, "other_ctx": draw(st.booleans()), "via_buffer": draw(st.booleans())}
+        return {"fam": "hybrid", "h": h, "value": value, "other_ctx": draw(st.booleans()), "via_buffer": draw(st.booleans()), "inherit": draw(st.integers(0, 3)) == 0}
     cfg = tg.Cfg(tier, allow_refs=False, allow_nd=False, allow_orders=False, roots=("struct", "struct", "array"))
     spec = draw(tg.type_specs(cfg))
     value = tg._draw_value(draw, spec, cfg)
@@ -104,7 +104,31 @@ def run_hybrid(case):
 
     h, value = case["h"], case["value"]
     labels = {"fam:hybrid"} | hybgen.hybrid_labels(h)
-    hn = hybgen.materialise(h)
+    base = None
+    if case.get("inherit"):
+        # the class derives from a hybrid class that declares the same fields with OTHER defaults, and the base class is
+        # used (to_dict) first: nothing computed for the base may be taken for the derived class
+        import copy as _copy
+
+        hb = _copy.deepcopy(h)
+        hb["name"] = "Base" + h["name"]
+        for f in hb["fields"]:
+            if "default" in f and f["t"]["k"] == "scalar":
+                d0 = f["default"]
+                f["default"] = (d0 - 1 if d0 > 0 else d0 + 1) if not isinstance(d0, float) else (d0 / 2 + 1.0 if abs(d0) < 1e300 else 1.0)
+            elif "default" in f and f["t"]["k"] == "string":
+                f["default"] = f["default"] + "B"
+        hb["fields"] = [f for f in hb["fields"] if f["t"]["k"] in ("scalar", "string")]
+        if hb["fields"]:
+            hb["rename"] = {k: v for k, v in hb.get("rename", {}).items() if any(f["n"] == k for f in hb["fields"])}
+            bn = sut(hybgen.materialise, hb)
+            if not is_raised(bn):
+                bo = sut(lambda: bn.cls(**hybgen.init_kwargs(bn, {f["n"]: ({"$absent": 1} if hybgen.has_usable_default(f) else ("s" if f["t"]["k"] == "string" else 0)) for f in hb["fields"]})))
+                if not is_raised(bo):
+                    sut(bo.to_dict)
+                    base = bn.cls
+                    labels.add("derived_class")
+    hn = hybgen.materialise(h, base=base)
     exp = _nz(hn.node.spec, hybgen.expected(h, value))
     if "$absent" in json.dumps(value):
         labels.add("field_absent")
